@@ -113,6 +113,10 @@ pub struct FCase {
     /// stack pointer ends at the PROT_NONE page.  (in-page selector, sp in the second page?)
     #[serde(default)]
     pub file_stack: Option<(u8, bool)>,
+    /// one more application region inside a pattern-filled mapping that is then made PROT_NONE (the fast
+    /// read path fails there and the writer falls back to /proc/pid/mem): (pages, offset, length)
+    #[serde(default)]
+    pub sealed_app: Option<(u8, u32, u32)>,
 }
 
 pub const ODD_SPS: [u64; 6] = [u64::MAX, 1, 7, 1 << 63, 0xffff_8000_0000_0000, u64::MAX - 7];
@@ -225,6 +229,12 @@ pub fn run_case(c: &FCase) -> Result<Obs, RunErr> {
         }
         app_maps.push((addr, pages * PAGE));
     }
+    let mut sealed: Option<(u64, u64)> = None;
+    if let Some((pages, _, _)) = c.sealed_app {
+        let pages = pages as u64 % 40 + 1;
+        let (_, addr) = b.add_anon(pages, 0, 0x5EA1_ED00 + pages);
+        sealed = Some((addr, pages * PAGE));
+    }
     // spinner words live in a dedicated rw mapping
     let (_, spin_words) = b.add_anon(1, 3, 0);
     let mut k = 0;
@@ -281,6 +291,10 @@ pub fn run_case(c: &FCase) -> Result<Obs, RunErr> {
     }
     if k > 0 && !matches!(c.blamed, BlamedG::Foreign) {
         app_regions.push((spin_words, 64 * k));
+    }
+    if let (Some((addr, len)), Some((_, off, l)), false) = (sealed, c.sealed_app, matches!(c.blamed, BlamedG::Foreign)) {
+        let off = off as u64 % len;
+        app_regions.push((addr + off, 1 + l as u64 % (len - off)));
     }
     // crash context
     let ip_end = ip_addr + ip_pages * PAGE;
@@ -457,7 +471,7 @@ pub fn case_strategy(max_threads: usize, min_threads: usize) -> impl Strategy<Va
                     }
                 }
             }
-            FCase { threads, blamed, crash, limit, app_maps, app, ip_map_pages, stop_failspot, cue_exiters, ip_neighbors, second_dump, odd_sp: None, file_stack: None }
+            FCase { threads, blamed, crash, limit, app_maps, app, ip_map_pages, stop_failspot, cue_exiters, ip_neighbors, second_dump, odd_sp: None, file_stack: None, sealed_app: None }
         })
 }
 
